@@ -129,9 +129,37 @@ def cases(rng, tier):
         if k % 2:
             add_stage_blocks(rng, m)
         out.append({"op": None, "tag": "method-stages" if k % 2 else "method", "method": m})
+    # the same methods generated with the profiling option (counters and timers around every phase; a failed step
+    # takes another way out of the phase routine there)
+    for c in [c for c in out if c["tag"] in ("method", "method-stages")][::3]:
+        out.append({"op": None, "tag": c["tag"] + "+instrumented", "method": dict(c["method"], instrument=True)})
+    # …and hand-made: steps that FAIL while a user-type temporary is alive, plain and instrumented
+    V, C = fc.V, fc.C
+    for instrument in (False, True):
+        prog = [["stmt", ["call", ["v1"], "<func>rhs", [V("<t>"), V("<state>y")], []]],
+                ["stmt", ["assign", "<p>k", None, ["+", [V("<p>k"), C(1)]], []]],
+                ["if", ["cmp", "<", V("<p>k"), C(3)]],
+                ["stmt", ["fail"]],
+                ["endif"],
+                ["stmt", ["assign", "<state>y", None, ["+", [V("<state>y"), ["*", [V("<dt>"), V("v1")]]]], []]],
+                ["stmt", ["yield", V("<state>y"), V("<t>"), "final", "y"]]]
+        out.append({"op": None, "tag": "failing-step-with-live-temporary" + ("+instrumented" if instrument else ""), "method":
+                    {"phases": [{"name": "p0", "next": "p0", "prog": prog}], "initial": "p0", "y0": [1, 2, -1],
+                     "exact": False, "k0": 0, "t0": 0, "dt": 0.5, "runs": 4, **({"instrument": True} if instrument else {})}})
+    # a call whose first result is a scalar and whose second is a user-type vector, the vector used afterwards
+    for order in (0, 1):
+        prog = [["stmt", ["call", ["v1"], "<func>rhs", [V("<t>"), V("<state>y")], []]],
+                ["stmt", ["assign", "<state>y", None, ["+", [V("<state>y"), ["*", [V("<dt>"), V("v1")]]]], []]],
+                ["stmt", ["call", ["lam", "kv"], "<func>rate", [V("<state>y")], []]],
+                ["stmt", ["assign", "<state>y", None, ["+", [V("<state>y"), ["*", [V("lam"), V("<dt>"), V("kv")]]]], []]]]
+        if order:
+            prog.insert(2, ["stmt", ["call", ["lo", "kv"], "<func>split", [V("<state>y")], []]])
+        prog.append(["stmt", ["yield", V("<state>y"), V("<t>"), "final", "y"]])
+        out.append({"op": None, "tag": "scalar-then-vector-results", "method":
+                    {"phases": [{"name": "p0", "next": "p0", "prog": prog}], "initial": "p0", "y0": [1, 2, -1],
+                     "exact": False, "k0": 0, "t0": 0, "dt": 0.5, "runs": 3}})
     # a user-type temporary made BEFORE a counted loop and used for the last time INSIDE it (a release at the last
     # use would free it after the first iteration); with and without a later use, 1-3 iterations, two run() calls
-    V, C = fc.V, fc.C
     for trips in (1, 2, 3):
         for later in (False, True):
             for inner in ("<builtin>norm_2", "<builtin>len"):
